@@ -1,3 +1,4 @@
 import CohdlVerif.Model.DriverLoop
--- model driver of property C13 (stub: no model entry points yet)
-def main : IO Unit := CohdlVerif.driverLoop (fun _ => "bad-op")
+import CohdlVerif.Model.C13Driver
+-- model driver of property C13:  `hist REQ ; ...` | `view W VT OP*` | `wr W BITS (OP* = BITS /)*`
+def main : IO Unit := CohdlVerif.driverLoop CohdlVerif.C13.handle
